@@ -1,6 +1,9 @@
 package embedded
 
 import (
+	"encoding/binary"
+	"encoding/json"
+	"fmt"
 	"strconv"
 
 	"reduction.dev/reduction/connectors"
@@ -25,19 +28,25 @@ type SourceSplitter struct {
 }
 
 func (s *SourceSplitter) Start(ckpt *snapshotpb.SourceCheckpoint) error {
-	// Embedded SourceSplitter does not checkpoint
-	if ckpt != nil {
-		panic("embedded source splitter does not support checkpointing")
+	// The splitter has no state of its own. Resume each split from the cursor
+	// in the split state that its SourceReader checkpointed.
+	cursors := make(map[string][]byte, len(ckpt.GetSplitStates()))
+	for _, splitState := range ckpt.GetSplitStates() {
+		var sp split
+		if err := json.Unmarshal(splitState, &sp); err != nil {
+			return fmt.Errorf("embedded.SourceSplitter failed to unmarshal split state: %w", err)
+		}
+		cursors[sp.SplitID] = binary.BigEndian.AppendUint64(nil, uint64(sp.Cursor))
 	}
 
-	// Create splits all with nil cursors
+	// Create splits with nil cursors unless the checkpoint has one
 	sourceSplits := make([]*workerpb.SourceSplit, s.splitCount)
 	for splitIndex := range iteru.Times(s.splitCount) {
 		splitID := strconv.Itoa(splitIndex)
 		sourceSplits[splitIndex] = &workerpb.SourceSplit{
 			SplitId:  splitID,
 			SourceId: "TBD",
-			Cursor:   nil,
+			Cursor:   cursors[splitID],
 		}
 	}
 
